@@ -53,7 +53,13 @@ class StackRig:
         zigpy.serial.create_serial_connection = self._create_serial_connection
         bellows.uart.zigpy.serial.create_serial_connection = self._create_serial_connection
         if not defer:
-            self._bind(loop if loop is not None else SimLoop(tape if sched else None, max_iters=max_iters, max_vt=max_vt))
+            if isinstance(sched, dict):  # a fixed scheduling policy (directed sweeps)
+                from .tape import PolicyTape
+
+                ltape = PolicyTape(**sched)
+            else:
+                ltape = tape if sched else None
+            self._bind(loop if loop is not None else SimLoop(ltape, max_iters=max_iters, max_vt=max_vt))
 
     def _bind(self, loop):
         """Create everything that lives on the loop the serial transport belongs to."""
@@ -81,6 +87,8 @@ class StackRig:
         self.gw = protocol._ezsp_protocol
         self._wrap_gateway(self.gw)
         self.transport = SimTransport(self.loop, self._host_write, log=self.log)
+        if self.mon is not None:
+            self.transport.on_mutated = lambda snap, now, _m=self.mon: _m._v("C03.tx", "buffer-mutated-after-write", f"the object handed to transport.write() ({snap.hex()}) was changed afterwards (now {now.hex()}): a transport that has not drained yet would put the new content on the wire")
         self.loop.call_soon(self.transport.attach, protocol)
         return self.transport, protocol
 
